@@ -89,7 +89,19 @@ impl Property for C06 {
             for _ in 0..rng.below(4) {
                 ops.push(BOp::Parameter);
             }
-            for _ in 0..rng.range(1, 4) {
+            if rng.chance(1, 5) {
+                // an annotation aimed at this function (argument seed = 1 mod 4: see Drv::bias_arguments)
+                ops.push(BOp::Call {
+                    method: rng.pick(&["decorate", "decorate", "decorate", "name", "execution_mode", "decorate_id", "decorate_string", "entry_point"]).to_string(),
+                    arg_seed: rng.next() / 4 * 4 + 1,
+                    explicit_rid: false,
+                    ip_kind: 0,
+                    ip_k: 0,
+                });
+            }
+            // one function in six is a declaration without a body
+            let nblocks = if rng.chance(1, 6) { 0 } else { rng.range(1, 4) };
+            for _ in 0..nblocks {
                 ops.push(BOp::BeginBlock { explicit_id: rng.chance(1, 3) });
                 for _ in 0..rng.below(7) {
                     // module-level calls interleaved with function construction
@@ -115,6 +127,7 @@ impl Property for C06 {
                 ops.push(BOp::SetVersion(*rng.pick(&[1u8, 1, 0, 3]), rng.below(7) as u8));
             }
         }
+        crate::props::c12::repeat_methods(rng, &mut ops);
         Trace { ops }
     }
 
